@@ -106,7 +106,27 @@ Example C28_witness_stepend :
   = [(Failed, Locked 1 (t 30) (t 30 + 500000000), 0); (Passed, Init, 0)].
 Proof. vm_compute. split; reflexivity. Qed.
 
+(* policy selection: a credential with TOTPs of steps 60 and 30, two security keys and backup
+   codes is limited per 30 s step; hypotheses of C28_totp_credential_3_per_step are met *)
+Example C28_witness_policy_selection :
+  softlock_policy (SMfa [60; 30] 2 true) = PTotp 30 /\
+  forallb (N.ltb 0) [60; 30] = true /\
+  softlock_policy (SMfa [] 2 true) = PWebauthn /\
+  policy_spec (SMfa [60; 30] 2 true) PWebauthn = false /\
+  policy_spec (SMfa [60; 30] 2 true) (PTotp 60) = false.
+Proof. vm_compute. repeat split; reflexivity. Qed.
+
+(* a lock that behaves like the webauthn policy on a TOTP+security-key credential (what a wrong
+   policy selection would give: 6 wrong codes accepted in one step) is flagged by pcheck *)
+Example C28_witness_wrong_policy_flagged :
+  let l := [Ev (t 3002) None true; Ev (t 3004) None true; Ev (t 3006) None true;
+            Ev (t 3008) None true; Ev (t 3010) None true; Ev (t 3012) None true] in
+  pcheck (CShapeEvents 4 (SMfa [30] 1 false) l (exec (new PWebauthn) l)) = false /\
+  pcheck (CShapeEvents 4 (SMfa [30] 1 false) l (exec (new (PTotp 30)) l)) = true.
+Proof. vm_compute. split; reflexivity. Qed.
+
 (* C28_agree_implies_property: case_ok holds of real policies *)
 Example C28_witness_case_ok :
-  case_ok (CEvents 1 (PTotp 30) [] []) = true /\ case_ok (CNext PPassword 100 5 Init) = true.
-Proof. vm_compute. split; reflexivity. Qed.
+  case_ok (CEvents 1 (PTotp 30) [] []) = true /\ case_ok (CNext PPassword 100 5 Init) = true /\
+  case_ok (CShapeEvents 4 (SMfa [60; 30] 1 true) [] []) = true.
+Proof. vm_compute. repeat split; reflexivity. Qed.
